@@ -108,5 +108,4 @@ def run(ctx):
 
 
 def replay(obj):
-    print(obj)
-    return 1
+    return "rerun"      # regenerated deterministically from the recorded seed (vlib/main.py)
